@@ -594,3 +594,53 @@ func init() {
 		},
 	})
 }
+
+func init() {
+	register(&Rule{
+		ID: "metriclog.no-unchecked-short-read", Props: []string{"C17"}, Floor: 1,
+		Doc: "the metric log searcher / reader never takes the bytes of a raw Read([]byte) for a complete record without looking at the byte count: a file cut inside a fixed-size index record yields a short read with a nil error, and decoding the buffer then mixes the torn record with stale bytes of the previous one. Records are read with encoding/binary.Read / io.ReadFull (which report io.ErrUnexpectedEOF), or the count returned by Read is compared",
+		Run: func(c *Ctx) {
+			nFull, nRaw := 0, 0
+			for _, f := range c.P.ModuleFuncs() {
+				if f.Pkg == nil || !strings.HasSuffix(f.Pkg.Pkg.Path(), mlPkg) || isTestOrExample(f) {
+					continue
+				}
+				for _, ci := range callsIn(f) {
+					if isExtCall(ci, "encoding/binary.Read", "io.ReadFull", "io.ReadAtLeast") {
+						nFull++
+						continue
+					}
+					cc := ci.Common()
+					name := ""
+					var sig *types.Signature
+					if cc.IsInvoke() {
+						name, sig = cc.Method.Name(), cc.Method.Type().(*types.Signature)
+					} else if cal := cc.StaticCallee(); cal != nil && !inModule(fnPkgPath(cal)) {
+						name, sig = cal.Name(), cal.Signature
+					}
+					if name != "Read" || sig == nil || sig.Params().Len() != 1 || sig.Results().Len() != 2 {
+						continue
+					}
+					if sl, ok := sig.Params().At(0).Type().Underlying().(*types.Slice); !ok || !types.Identical(sl.Elem(), types.Typ[types.Byte]) {
+						continue
+					}
+					nRaw++
+					counted := false
+					if v := ci.Value(); v != nil {
+						for _, r := range refsOf(v) {
+							if ex, ok := r.(*ssa.Extract); ok && ex.Index == 0 {
+								for _, r2 := range refsOf(ex) {
+									if b, ok := r2.(*ssa.BinOp); ok && isComparison(b.Op) {
+										counted = true
+									}
+								}
+							}
+						}
+					}
+					c.Check(counted, fmt.Sprintf("%s / raw-read#%d", fnKey(f), nRaw), ci.Pos(), "the byte count of a raw Read is compared before the buffer is decoded")
+				}
+			}
+			c.Check(nFull > 0 || nRaw > 0, mlPkg+" / record-reads", token.NoPos, "%d record read(s) through binary.Read / io.ReadFull, %d raw Read call(s)", nFull, nRaw)
+		},
+	})
+}
